@@ -28,7 +28,7 @@ theorem requestRaw_wf (g : Mem) (hostMAC dst smac sip tmac tip : Bytes) (sport t
     (h5 : tmac.length = 6) (h6 : tip.length = 4) (hcap : g.length = 1522) :
     ∃ f, Gen.Send.arp_spoofer_RequestRaw g dst smac sip sport tmac tip tport hostMAC = .ok f ∧
       Spec.Wire.wfARP hostMAC dst 1 smac sip tmac tip f = none := by
-  rw [requestRaw_tie g hostMAC dst smac sip tmac tip sport tport h1 h2 h3 h4 h5 h6 (by omega)]
+  rw [requestRaw_tie]
   exact C07.sent_arp_wf g hostMAC dst 1 smac sip tmac tip h1 h2 h3 h4 h5 h6 (by decide) hcap
 
 /-- arp_spoofer reply (the spoofing frame of C13) -/
@@ -37,7 +37,7 @@ theorem reply_wf (g : Mem) (hostMAC dst smac sip tmac tip : Bytes) (sport tport 
     (h5 : tmac.length = 6) (h6 : tip.length = 4) (hcap : g.length = 1522) :
     ∃ f, Gen.Send.arp_spoofer_reply g dst smac sip sport tmac tip tport hostMAC = .ok f ∧
       Spec.Wire.wfARP hostMAC dst 2 smac sip tmac tip f = none := by
-  rw [reply_tie g hostMAC dst smac sip tmac tip sport tport h1 h2 h3 h4 h5 h6 (by omega)]
+  rw [reply_tie]
   exact C07.sent_arp_wf g hostMAC dst 2 smac sip tmac tip h1 h2 h3 h4 h5 h6 (by decide) hcap
 
 /-- dhcp4_spoofer sendDHCP4Packet: Ethernet source = the `srcAddr.MAC` its callers pass (the host address) -/
@@ -46,7 +46,7 @@ theorem sendDHCP4Packet_wf (g : Mem) (sm dm sip dip : Bytes) (sp dp : Nat) (pl :
     (hsp : sp < 65536) (hdp : dp < 65536) (hfit : 42 + pl.length ≤ 1522) (hcap : g.length = 1522) :
     ∃ f, Gen.Send.dhcp4_spoofer_sendDHCP4Packet g sm sip sp dm dip dp pl = .ok f ∧
       Spec.Wire.wfUDP4 sm dm sip dip sp dp pl f = none := by
-  rw [sendDHCP4Packet_tie g sm dm sip dip sp dp pl h1 h2 h3 h4 hsp hdp (by omega) (by omega)]
+  rw [sendDHCP4Packet_tie]
   exact C07.sent_udp4_wf g sm dm sip dip 50 sp dp pl h1 h2 h3 h4 hsp hdp hfit hcap
 
 /-- dns_naming sendNBNS -/
@@ -55,7 +55,7 @@ theorem sendNBNS_wf (g : Mem) (sm dm sip dip : Bytes) (sp dp : Nat) (pl : Bytes)
     (hfit : 42 + pl.length ≤ 1522) (hcap : g.length = 1522) :
     ∃ f, Gen.Send.dns_naming_sendNBNS g sm sip sp dm dip dp pl = .ok f ∧
       Spec.Wire.wfUDP4 sm dm sip dip 137 137 pl f = none := by
-  rw [sendNBNS_tie g sm dm sip dip sp dp pl h1 h2 h3 h4 (by omega) (by omega)]
+  rw [sendNBNS_tie]
   exact C07.sent_udp4_wf g sm dm sip dip 255 137 137 pl h1 h2 h3 h4 (by decide) (by decide) hfit hcap
 
 /-- dns_naming SendSSDPSearch -/
@@ -64,7 +64,7 @@ theorem sendSSDPSearch_wf (g : Mem) (hm dm sip dip : Bytes) (pl : Bytes)
     (hfit : 42 + pl.length ≤ 1522) (hcap : g.length = 1522) :
     ∃ f, Gen.Send.dns_naming_SendSSDPSearch g hm dm sip dip pl = .ok f ∧
       Spec.Wire.wfUDP4 hm dm sip dip 1900 1900 pl f = none := by
-  rw [sendSSDPSearch_tie g hm dm sip dip pl h1 h2 h3 h4 (by omega) (by omega)]
+  rw [sendSSDPSearch_tie]
   exact C07.sent_udp4_wf g hm dm sip dip 255 1900 1900 pl h1 h2 h3 h4 (by decide) (by decide) hfit hcap
 
 /-- dns_naming sendMDNS, IPv4 -/
@@ -73,7 +73,7 @@ theorem sendMDNS4_wf (g : Mem) (hm dm smac sip dip : Bytes) (sport dp : Nat) (pl
     (hdp : dp < 65536) (hfit : 42 + pl.length ≤ 1522) :
     ∃ f, Gen.Send.dns_naming_sendMDNS g pl smac sip sport dm dip dp hm = .ok f ∧
       Spec.Wire.wfUDP4 hm dm sip dip dp dp pl f = none := by
-  rw [sendMDNS4_tie hm dm smac sip dip sport dp pl g h1 h2 h3 h4 hdp hfit]
+  rw [sendMDNS4_tie g hm dm smac sip dip sport dp pl h3]
   exact C07.sent_udp4_wf _ hm dm sip dip 255 dp dp pl h1 h2 h3 h4 hdp hdp hfit List.length_replicate
 
 /-- dns_naming sendMDNS, IPv6: with the mandatory UDP checksum; the caller supplies the matching group MAC -/
